@@ -147,9 +147,10 @@ func ltRun(toks []string) string {
 	}()
 	select {
 	case err := <-refDone:
-		if (err != nil) != mf {
+		if err != nil && !mf {
 			return fmt.Sprintf("bad reference run: %v", err)
 		}
+		// (an unmarshallable document that encodes "successfully" is judged below, on the real run)
 	case <-time.After(10 * time.Second):
 		// even on a working output the call does not return
 		ltHangs++
